@@ -337,6 +337,13 @@ func (env *Env) binary(n *ast.BinaryExpr) *Val {
 		if t == tUInt {
 			t = tInt
 		}
+		// a function literal (known closure) compared with nil: never nil
+		if (n.Op == token.EQL || n.Op == token.NEQ) && ((a.Clo != nil && b.Ty == types.Typ[types.UntypedNil]) || (b.Clo != nil && a.Ty == types.Typ[types.UntypedNil])) {
+			if n.Op == token.NEQ {
+				return &Val{T: "true", Ty: tBool}
+			}
+			return &Val{T: "false", Ty: tBool}
+		}
 		if _, ok := t.Underlying().(*types.Slice); ok && (a.Ty == types.Typ[types.UntypedNil] || b.Ty == types.Typ[types.UntypedNil]) {
 			s := a.T
 			if a.Ty == types.Typ[types.UntypedNil] {
@@ -582,6 +589,19 @@ func (env *Env) call(n *ast.CallExpr) *Val {
 			}
 			e.noteBoxedType(t)
 			return &Val{T: and(not(eq(v.T, "0")), eq(sx("typeof", v.T), fmt.Sprint(e.typeID(t)))), Ty: tBool}
+		case "zero":
+			// zero(T): the zero value of type T
+			t := env.evalType(n.Args[0])
+			return &Val{T: e.zeroOf(t), Ty: t}
+		case "cast":
+			// cast(x, I): the interface value x seen through interface type I
+			// (the value of x.(I) where that assertion succeeds; same reference)
+			v := env.eval(n.Args[0])
+			t := env.evalType(n.Args[1])
+			if _, isIface := t.Underlying().(*types.Interface); !isIface {
+				specErr("cast(x, I): I must be an interface type")
+			}
+			return &Val{T: v.T, Ty: t}
 		case "unbox":
 			v := env.eval(n.Args[0])
 			t := env.evalType(n.Args[1])
